@@ -13,6 +13,14 @@ Two clauses have a structural reading.
      clashing callee local in the callee's spec and in its body is the same
      expression.
  R3  only the mapped call nodes are replaced (mapping keyed by the calls).
+ R4  expression values are not defaulted by truthiness: in the inliner a bound /
+     index taken from a declaration is never written ``<expr> or IntLiteral(k)``
+     (``IntLiteral(0)`` is falsy, so a declared lower bound 0 would silently
+     become k and every remapped subscript shifts).
+ R5  one notion of "the result variable": every filter of
+     ``inline_function_calls`` that excludes the function result by comparing a
+     variable's name with ``callee.<attr>`` uses the same attribute,
+     ``result_name`` (for ``function f(..) result(r)`` the result is r, not f).
 Not decided: argument remapping, PRESENT handling, statement-function / elemental
 inlining arithmetic.
 """
@@ -91,8 +99,55 @@ def run(ctx):
     (ctx.judge('R3', 'mapping keyed by the inlined calls') if ok else
      ctx.violation('R3', 'inline_subroutine_calls:call_map', f.where, 'the call->body mapping is not keyed by exactly the calls to inline'))
 
+    # ---- R4
+    ctx.rule('R4', 'loki/transformations/inline: no `<expression> or (sym.)IntLiteral(...)` / `or (sym.)Literal(...)` defaulting')
+    ctx.rule('R5', 'inline_function_calls: all name comparisons against callee.<attr> that exclude the result variable use result_name')
+    nfun = 0
+    hits = []
+    for mod in m.all_repo_modules(packages=('loki/transformations/inline',)):
+        for fn_ in [n for n in ast.walk(mod.tree) if isinstance(n, (ast.FunctionDef, ast.AsyncFunctionDef))]:
+            nfun += 1
+            for b_ in ast.walk(fn_):
+                if isinstance(b_, ast.BoolOp) and isinstance(b_.op, ast.Or) and isinstance(b_.values[-1], ast.Call) \
+                        and X.call_name_of(b_.values[-1]) in ('IntLiteral', 'Literal', 'FloatLiteral', 'LogicLiteral'):
+                    hits.append((mod, fn_, b_))
+    ctx.floor('R4', 'functions of the inline package', nfun, 20)
+    if hits:
+        for mod, fn_, b_ in hits:
+            ctx.violation('R4', f'{fn_.name}:truthiness-default', f'{mod.relpath}:{b_.lineno}',
+                          f'`{ast.unparse(b_)}` replaces an expression by a default whenever it is falsy: IntLiteral(0) / LogicLiteral(false) '
+                          f'are falsy, so a declared lower bound 0 is taken for "no bound" and the remapped subscripts shift by one')
+    else:
+        ctx.judge('R4', 'no truthiness-based defaulting of expression values', facts={'functions': nfun})
+    FNS = 'loki/transformations/inline/functions.py'
+    ifc = m.get_function(FNS, 'inline_function_calls')
+    attrs = []
+    for c_ in ast.walk(ifc.node):
+        if isinstance(c_, ast.Compare) and len(c_.ops) == 1 and isinstance(c_.ops[0], (ast.Eq, ast.NotEq)):
+            for side in (c_.left, c_.comparators[0]):
+                for a_ in ast.walk(side):
+                    if isinstance(a_, ast.Attribute) and isinstance(a_.value, ast.Name) and a_.value.id == 'callee' \
+                            and a_.attr in ('name', 'result_name', 'basename'):
+                        other = c_.comparators[0] if side is c_.left else c_.left
+                        if '.name' in ast.unparse(other):
+                            attrs.append((a_.attr, c_.lineno, ast.unparse(c_)))
+    ctx.floor('R5', 'result-variable exclusions in inline_function_calls', len(attrs), 2)
+    bad = [x for x in attrs if x[0] != 'result_name']
+    if bad:
+        ctx.violation('R5', 'inline_function_calls:result-variable-attr', f'{ifc.module.relpath}:{bad[0][1]}',
+                      f'`{bad[0][2]}` identifies the function result by callee.{bad[0][0]} while the other filters and the redirection of the '
+                      f'result use callee.result_name: for `function f(..) result(r)` the result variable r is renamed like an ordinary '
+                      f'clashing local and the value assigned in the inlined body never reaches the call site',
+                      facts={'comparisons': [x[2] for x in attrs]})
+    else:
+        ctx.judge('R5', 'result variable identified by result_name everywhere', facts={'comparisons': [x[2] for x in attrs]})
+
 
 MUTANTS = [
+    Mutant('lbound-defaulted-by-truthiness', PR, "                decl_lbound = decl_lbounds[index][0]\n", "                decl_lbound = decl_lbounds[index][0] or sym.IntLiteral(1)\n",
+           expect=('R4', 'truthiness-default')),
+    Mutant('result-excluded-by-function-name', 'loki/transformations/inline/functions.py', "        if v.name.lower() != callee.result_name.lower()\n", "        if v.name.lower() != callee.name.lower()\n",
+           expect=('R5', 'result-variable-attr')),
     Mutant('rename-mismatch', PR, "            var_map[v] = v.clone(name=f'{callee.name}_{v.name}')", "            var_map[v] = v.clone(name=f'{callee.name}_{v.name}_')",
            expect=('R2', 'shadow-rename'), quick=True),
     Mutant('repair-return-check', PR, "    assert isinstance(callee, Subroutine)\n\n    # Prevent shadowing",
